@@ -41,6 +41,12 @@ def cat_case(w, m, via: str, keys) -> dict:
         x, lp = d.sample_and_log_prob(jr.key(k))
         ok &= abs(float(lp) - float(d.log_prob(x))) <= 1e-5
     atoms["SampleAndLogProbReturnsLogProbOfItsSample"] = bool(ok)
+    N = 600
+    ks = jr.split(jr.key(keys[0] + 5), N)
+    for nm, xs in (("SampleFrequenciesFollowTheProbabilities", np.asarray(jax.vmap(d.sample)(ks))),
+                   ("FrequenciesOfSampleAndLogProbFollowTheProbabilities", np.asarray(jax.vmap(lambda k: d.sample_and_log_prob(k)[0])(ks)))):
+        atoms[nm] = bool(all(abs(float(np.mean(xs == i)) - float(probs[i])) <= 6.0 * math.sqrt(max(float(probs[i]) * (1 - float(probs[i])), 0.0) / N)
+                             + 2.0 / N for i in range(len(w))))
     h = -sum(float(probs[i]) * math.log(float(probs[i])) for i in allowed if probs[i] > 0)
     atoms["EntropyIsMinusExpectedLogProb"] = bool(abs(float(d.entropy()) - h) <= 1e-5)
     return dict(ev="cat", w=list(w), m=list(m), probs=[micro(p) for p in probs], mode=int(d.mode()), samples=samples, atoms=atoms,
@@ -56,6 +62,15 @@ def bern_case(a, m, keys) -> dict:
     p1, p0 = np.asarray(d.prob(one)), np.asarray(d.prob(zero))
     atoms = {"ProbIsExpOfLogProb": bool(np.all(np.abs(p1 - np.exp(lp1)) <= 1e-6) and np.all(np.abs(p0 - np.exp(lp0)) <= 1e-6)),
              "ComponentMassIsOne": bool(np.all(np.abs(p1 + p0 - 1.0) <= 1e-6))}
+    N = 600
+    xs = np.asarray(jax.vmap(d.sample)(jr.split(jr.key(keys[0] + 5), N))).reshape(N, -1).astype(int)
+    pp = np.asarray(probs1, dtype=np.float64).reshape(-1)
+    tol = lambda q: 6.0 * math.sqrt(max(q * (1 - q), 0.0) / N) + 2.0 / N
+    okf = all(abs(float(np.mean(xs[:, i] == 1)) - pp[i]) <= tol(pp[i]) for i in range(len(pp)))
+    if len(pp) >= 2:        # components are drawn independently: joint frequency of the first two
+        q = pp[0] * pp[1]
+        okf &= abs(float(np.mean((xs[:, 0] == 1) & (xs[:, 1] == 1))) - q) <= tol(q)
+    atoms["SampleFrequenciesFollowTheProbabilities"] = bool(okf)
     return dict(ev="bern", a=list(a), m=list(m), probs1=[micro(p) for p in probs1], mode=[int(x) for x in np.asarray(d.mode())],
                 samples=samples, atoms=atoms)
 
@@ -98,8 +113,80 @@ def multi_case(dims, w, m, keys) -> dict:
         ok &= abs(float(lp) - float(d.log_prob(x))) <= 1e-5
     atoms["SampleAndLogProbReturnsLogProbOfItsSample"] = bool(ok)
     samples = [[int(v) for v in np.asarray(d.sample(jr.key(k)))] for k in keys]
+    # "samples follow the stated density": joint frequencies over N draws against the joint probabilities (5 sigma + 2/N), for
+    # sample() and for sample_and_log_prob(); components drawn from one shared key fail here although every marginal is right
+    N = 600
+    ks = jr.split(jr.key(keys[0]), N)
+    for nm, draw in (("sample", jax.vmap(lambda k: d.sample(k))(ks)), ("sample_and_log_prob", jax.vmap(lambda k: d.sample_and_log_prob(k)[0])(ks))):
+        xs = np.asarray(draw).reshape(N, len(dims))
+        okj = True
+        for cell in joint:
+            pj = cell["p"] / 1e6
+            f = float(np.mean(np.all(xs == np.asarray(cell["x"]), axis=1)))
+            okj &= abs(f - pj) <= 6.0 * math.sqrt(max(pj * (1 - pj), 0.0) / N) + 2.0 / N
+        atoms["JointSampleFrequenciesFollowTheProductDensity" if nm == "sample" else "JointFrequenciesOfSampleAndLogProbFollowTheProductDensity"] = bool(okj)
     return dict(ev="multi", dims=list(dims), w=list(w), m=list(m), joint=joint, mode=[int(v) for v in np.asarray(d.mode())],
                 samples=samples, atoms=atoms)
+
+
+def _grid_1d(law, lo, hi, M=4000):
+    """midpoint grid on (lo, hi): abscissae, density exp(log_prob), cumulative mass"""
+    x = lo + (hi - lo) * (np.arange(M) + 0.5) / M
+    lp = np.asarray(jax.vmap(law.log_prob)(jnp.asarray(x, dtype=jnp.float32)), dtype=np.float64)
+    pdf = np.where(np.isfinite(lp), np.exp(lp), 0.0)
+    cdf = np.cumsum(pdf) * (hi - lo) / M
+    return x, pdf, cdf
+
+
+def _follows(samples, x, cdf, N) -> bool:
+    """empirical CDF of the samples against the numerically integrated density at five interior quantiles (5 sigma)"""
+    ok = True
+    for q in (0.1, 0.3, 0.5, 0.7, 0.9):
+        j = int(np.searchsorted(cdf, q))
+        if j <= 0 or j >= len(x):
+            return False
+        F = float(cdf[j])
+        Fe = float(np.mean(samples <= x[j]))
+        ok &= abs(Fe - F) <= 6.0 * math.sqrt(max(F * (1 - F), 0.0) / N) + 3.0 / N + 2e-3
+    return bool(ok)
+
+
+def _stat_atoms(kind, d, la, sa, low, high, key) -> dict:
+    """total mass (numerical integral of exp(log_prob) incl. the squashing Jacobian), goodness of fit of samples against the stated
+    density, entropy = -E[log p] (Monte Carlo, 5 sigma).  Vector laws: per-component marginals against the component's 1-D law of
+    the same family (the product structure itself is a separate atom)."""
+    N = 2000
+    ks = jr.split(jr.key(key + 17), N)
+    xs = np.asarray(jax.vmap(d.sample)(ks), dtype=np.float64).reshape(N, -1)
+    xs2 = np.asarray(jax.vmap(lambda k: d.sample_and_log_prob(k)[0])(ks), dtype=np.float64).reshape(N, -1)
+    loc, sc = np.asarray(la, dtype=np.float64).reshape(-1), np.asarray(sa, dtype=np.float64).reshape(-1)
+    lows = np.asarray(low, dtype=np.float64).reshape(-1) if low is not None else None
+    highs = np.asarray(high, dtype=np.float64).reshape(-1) if high is not None else None
+    mass_ok, fit_ok, fit2_ok = True, True, True
+    for i in range(len(loc)):
+        if lows is None:
+            comp = Normal(loc=jnp.asarray(loc[i], jnp.float32), scale=jnp.asarray(sc[i], jnp.float32))
+            a, b = loc[i] - 10 * sc[i], loc[i] + 10 * sc[i]
+        else:
+            lo_i, hi_i = float(lows[i % len(lows)]), float(highs[i % len(highs)])
+            comp = SquashedNormal(loc=jnp.asarray(loc[i], jnp.float32), scale=jnp.asarray(sc[i], jnp.float32),
+                                  low=jnp.asarray(lo_i, jnp.float32), high=jnp.asarray(hi_i, jnp.float32))
+            a, b = lo_i, hi_i
+        law = d if len(loc) == 1 and kind in ("Normal", "SquashedNormal") else comp
+        x, pdf, cdf = _grid_1d(law, a, b)
+        mass_ok &= abs(float(cdf[-1]) - 1.0) <= 5e-3
+        fit_ok &= _follows(xs[:, i], x, cdf, N)
+        fit2_ok &= _follows(xs2[:, i], x, cdf, N)
+    out = {"TotalMassIsOne": bool(mass_ok), "SamplesFollowTheStatedDensity": bool(fit_ok),
+           "SamplesOfSampleAndLogProbFollowTheStatedDensity": bool(fit2_ok)}
+    try:
+        h = float(np.asarray(d.entropy()).sum())
+        lps = np.asarray(jax.vmap(d.log_prob)(jnp.asarray(xs.reshape((N,) + np.asarray(la).shape), dtype=jnp.float32)), dtype=np.float64).reshape(N, -1).sum(axis=1)
+        est, se = -float(np.mean(lps)), float(np.std(lps)) / math.sqrt(N)
+        out["EntropyIsMinusExpectedLogProb"] = bool(abs(est - h) <= 6.0 * se + 2e-3)
+    except (NotImplementedError, AttributeError):
+        pass                       # entropy is not defined for this law
+    return out
 
 
 def cont_case(kind, params, keys) -> dict:
@@ -131,6 +218,7 @@ def cont_case(kind, params, keys) -> dict:
         atoms["SquashedSamplesWithinBounds"] = ok_in
         mo = np.asarray(d.mode())
         atoms["SquashedModeWithinBounds"] = bool(np.all(mo >= np.asarray(low) - 1e-6) and np.all(mo <= np.asarray(high) + 1e-6))
+    atoms.update(_stat_atoms(kind, d, la, sa, low, high, keys[0]))
     if kind in ("MultivariateNormalDiag",):
         xs = d.sample(jr.key(keys[0]))
         comps = [Normal(loc=la[i], scale=sa[i]) for i in range(la.shape[0])]
